@@ -93,6 +93,7 @@ fn main() {
             "C07" => props::c07::replay(&ctx, &v),
             "C08" => props::c08::replay(&ctx, &v),
             "C10" => props::c10::replay(&ctx, &v),
+            "C11" => props::c11::replay(&ctx, &v),
             "C12" => props::c12::replay(&ctx, &v),
             "C13" => props::c13::replay(&ctx, &v),
             "C14" => props::c14::replay(&ctx, &v),
@@ -116,6 +117,7 @@ fn main() {
             "C07" => props::c07::run(&ctx),
             "C08" => props::c08::run(&ctx),
             "C10" => props::c10::run(&ctx),
+            "C11" => props::c11::run(&ctx),
             "C12" => props::c12::run(&ctx),
             "C13" => props::c13::run(&ctx),
             "C14" => props::c14::run(&ctx),
